@@ -60,7 +60,7 @@ CHECKS["C14"] = dict(
          "injection helper): base program, cache state (cold / partly warm / fully warm), index and slice bounds in -n-2..n+2 and payload "
          "opcode are solver-partitioned with an exhaustiveness certificate; after the real mutator runs, every derived view (AST, "
          "summaries, has_*, unsafe/non-standard imports, severity, dumps) equals that of a fresh Pickled over the same opcodes, and again "
-         "after a follow-up edit. Finite-state: the deciding step is the solver-certified exhaustive partition, the views run natively.",
+         "after a follow-up edit; every opcode class of OPCODES_BY_NAME is also used as inserted/replacing payload, and equal-comparing twins (True~1, -0.0~0.0) as replacements. Finite-state: the deciding step is the solver-certified exhaustive partition, the views run natively.",
     technique="CrossHair+z3 solver-partitioned exhaustive fan over (mutator, index, cache state), inductive cold-or-coherent invariant",
     design="§4 C14")
 
@@ -102,8 +102,8 @@ CHECKS["C04"] = dict(
     text="Solver-partitioned exhaustive exploration of labelled gadget programs through the real parser, interpreter and every rule of "
          "Analysis.ALL: vocabulary (modules, attribute names) is harvested from /repo's tables and literals on every run, crossed with "
          "every global-resolving opcode, memo round trips, every call-making opcode incl. a computed callee, nine fates of the call's "
-         "value, protocol headers, surrounding benign data, argument lengths around the 32-character shortening boundary, and pairs of "
-         "gadgets; what a program does is read off the reference VM's event log and the floor is computed from that log. Finite product "
+         "value, protocol headers, surrounding benign data, argument lengths around the 32-character shortening boundary, pairs of "
+         "gadgets, and one attribute name resolved from a benign and from a dangerous module; what a program does is read off the reference VM's event log and the floor is computed from that log. Finite product "
          "space; the deciding step is the solver's certificate that the partition is exhaustive (Confirmed over all paths).",
     technique="CrossHair+z3 solver-partitioned exhaustive fan over harvested vocabulary x opcode forms; floor from reference-VM event log",
     design="§4 C04")
@@ -125,16 +125,17 @@ CHECKS["C13"] = dict(
 
 CHECKS["C03"] = dict(
     text="Lockstep refinement against the reference VM: programs = base | builder slot x memo | builder slot x memo | opcode under test "
-         "(30 opcodes incl. every call-making one) | observer. Builder kinds (20 x 20) and base depth are solver-partitioned with an "
+         "(30 opcodes incl. every call-making one) | observer. Builder kinds (24 x 24) and base depth are solver-partitioned with an "
          "exhaustiveness certificate and the memo/observer choices enumerated inside each cell; a second family runs the same obligation "
          "from a hidden base whose depths are unbounded symbolic ints (real Interpreter.run and real pickle._Unpickler on hidden-prefix "
-         "stacks). Oracle: every import / invocation / setstate / persistent-id event of the VM occurs at least as often when the "
+         "stacks). A third family resolves every module name of the vocabulary harvested from /repo (incl. sys.builtin_module_names) through every "
+         "resolving opcode. Oracle: every import / invocation / setstate / persistent-id event of the VM occurs at least as often when the "
          "decompiled source is executed against the same inert stubs. Unsupported operations must be refused.",
     technique="CrossHair+z3: solver-partitioned program cells + hidden-base symbolic depths; reference-VM event log vs executed decompile",
     design="§4 C03/C05")
 CHECKS["C05"] = dict(
     text="Same lockstep family as C03 with the value oracle (canonical result of the executed decompiled source equals the reference "
-         "VM's, and the source must execute), plus plain data: 34 shapes x boundary leaves pickled by CPython's pickler at protocols "
+         "VM's, and the source must execute), plus plain data: 39 shapes (incl. shared containers beyond the pickler's batch size) x boundary leaves pickled by CPython's pickler at protocols "
          "0-5 must decompile and evaluate to an equal value of the same types. Recorded defects (FROZENSET text, same-name imports, no-op "
          "mutation of builtin values) are listed in known_findings.json and re-confirmed on every run.",
     technique="CrossHair+z3: solver-partitioned program cells + hidden-base symbolic depths; canonical value equality vs reference VM; plain-data round trip",
